@@ -576,3 +576,83 @@ Definition head_hists (h : head) : Z :=
   fold_left (fun n s => n + Z.of_nat (length (filter (fun x => negb (is_pf x)) (ms_samples s)))) (hd_series h) 0.
 Definition head_exs (h : head) : Z :=
   fold_left (fun n s => n + Z.of_nat (length (ms_exs s))) (hd_series h) 0.
+
+(* ---------- native histogram codec (prompb/codec.go and prompb/io/prometheus/write/v2/codec.go:
+   FromIntHistogram, FromFloatHistogram, IsFloatHistogram, ToIntHistogram, ToFloatHistogram,
+   deltasToCounts; the two protocol versions differ only in the StartTimestamp field) ---------- *)
+(* model histogram (histogram.Histogram / FloatHistogram): floats are IEEE bit patterns; for an
+   integer histogram zero count / count are uint64 values and buckets are int64 deltas, for a
+   float histogram they are bit patterns *)
+Record ghist := mkGH { g_float : bool; g_hint : Z; g_schema : Z; g_zt : Z; g_zc : Z; g_count : Z;
+                       g_sum : Z; g_pspans : list (Z * Z); g_pb : list Z;
+                       g_nspans : list (Z * Z); g_nb : list Z; g_custom : list Z }.
+(* the proto message: count and zero_count are oneofs *)
+Inductive pcount := PCInt (n : Z) | PCFloat (bits : Z).
+Record phist := mkPH { p_count : pcount; p_sum : Z; p_schema : Z; p_zt : Z; p_zc : pcount;
+                       p_nspans : list (Z * Z); p_ndeltas : list Z; p_ncounts : list Z;
+                       p_pspans : list (Z * Z); p_pdeltas : list Z; p_pcounts : list Z;
+                       p_hint : Z; p_ts : Z; p_custom : list Z; p_st : Z }.
+
+Definition from_int (st ts : Z) (h : ghist) : phist :=
+  mkPH (PCInt (g_count h)) (g_sum h) (g_schema h) (g_zt h) (PCInt (g_zc h))
+       (g_nspans h) (g_nb h) [] (g_pspans h) (g_pb h) [] (g_hint h) ts (g_custom h) st.
+Definition from_float (st ts : Z) (h : ghist) : phist :=
+  mkPH (PCFloat (g_count h)) (g_sum h) (g_schema h) (g_zt h) (PCFloat (g_zc h))
+       (g_nspans h) [] (g_nb h) (g_pspans h) [] (g_pb h) (g_hint h) ts (g_custom h) st.
+
+Definition is_float_hist (p : phist) : bool := match p_count p with PCFloat _ => true | PCInt _ => false end.
+(* the generated oneof getters return the zero value for the other variant *)
+Definition get_int (c : pcount) : Z := match c with PCInt n => n | PCFloat _ => 0 end.
+Definition get_float (c : pcount) : Z := match c with PCFloat b => b | PCInt _ => 0 end.
+
+(* float64(n) for an integer n: round to nearest, ties to even; result as the integer value *)
+Definition rnd53 (n : Z) : Z :=
+  let a := Z.abs n in
+  if a <? 9007199254740992 then n
+  else
+    let sh := Z.log2 a - 52 in
+    let q := a / 2 ^ sh in
+    let r := a mod 2 ^ sh in
+    let half := 2 ^ (sh - 1) in
+    let q' := if (half <? r) || ((r =? half) && Z.odd q) then q + 1 else q in
+    Z.sgn n * (q' * 2 ^ sh).
+(* IEEE-754 binary64 bit pattern of an exactly representable integer *)
+Definition bits_exact (n : Z) : Z :=
+  if n =? 0 then 0
+  else
+    let a := Z.abs n in
+    let e := Z.log2 a in
+    let mant := if e <=? 52 then a * 2 ^ (52 - e) else a / 2 ^ (e - 52) in
+    (if n <? 0 then 9223372036854775808 else 0) + (e + 1023) * 4503599627370496 + (mant - 4503599627370496).
+Definition z2f (n : Z) : Z := bits_exact (rnd53 n).
+(* deltasToCounts: cur += float64(d) in float64 arithmetic (operands are integers, so the
+   rounded sum is the rounding of the exact integer sum) *)
+Fixpoint deltas_to_counts (cur : Z) (ds : list Z) : list Z :=
+  match ds with
+  | [] => []
+  | d :: r => let c := rnd53 (cur + rnd53 d) in bits_exact c :: deltas_to_counts c r
+  end.
+
+Definition to_int (p : phist) : option ghist :=
+  if is_float_hist p then None
+  else Some (mkGH false (p_hint p) (p_schema p) (p_zt p) (get_int (p_zc p)) (get_int (p_count p))
+                  (p_sum p) (p_pspans p) (p_pdeltas p) (p_nspans p) (p_ndeltas p) (p_custom p)).
+Definition to_float (p : phist) : ghist :=
+  if is_float_hist p then
+    mkGH true (p_hint p) (p_schema p) (p_zt p) (get_float (p_zc p)) (get_float (p_count p))
+         (p_sum p) (p_pspans p) (p_pcounts p) (p_nspans p) (p_ncounts p) (p_custom p)
+  else
+    mkGH true (p_hint p) (p_schema p) (p_zt p) (z2f (get_int (p_zc p))) (z2f (get_int (p_count p)))
+         (p_sum p) (p_pspans p) (deltas_to_counts 0 (p_pdeltas p)) (p_nspans p)
+         (deltas_to_counts 0 (p_ndeltas p)) (p_custom p).
+
+(* proto.Marshal + proto.Unmarshal of the generated (gogo, proto3) code: a scalar `double` field is
+   written only `if m.X != 0`, which is false for -0.0 too, so negative zero arrives as +0.0.
+   Applies to Histogram.sum, Histogram.zero_threshold, Sample.value, Exemplar.value (oneof members
+   and packed repeated doubles are written bit for bit). *)
+Definition negzero : Z := 9223372036854775808.
+Definition wire_f (b : Z) : Z := if b =? negzero then 0 else b.
+Definition transmit (p : phist) : phist :=
+  mkPH (p_count p) (wire_f (p_sum p)) (p_schema p) (wire_f (p_zt p)) (p_zc p)
+       (p_nspans p) (p_ndeltas p) (p_ncounts p) (p_pspans p) (p_pdeltas p) (p_pcounts p)
+       (p_hint p) (p_ts p) (p_custom p) (p_st p).
